@@ -84,6 +84,19 @@ int main() {
     if (router->existsOrthogonalSegmentOverlap()) { printf("bridge scene, creation order %d%d%d: two connectors run collinear after nudging although the channel is 60 wide and the nudging distance is 4\n", P[perm][0], P[perm][1], P[perm][2]); bad++; }
     delete router;
   }
+  // a straight fixed connector crossed by the middle segments of two Z-shaped connectors that overlap it but not each other: both are moved off it
+  {
+    Router *router = new Router(OrthogonalRouting);
+    router->setRoutingParameter(segmentPenalty, 50); router->setRoutingParameter(idealNudgingDistance, 10);
+    const double bx[2] = { 0, 400 }, by[2] = { 175, 325 };
+    for (int i = 0; i < 2; ++i) for (int j = 0; j < 2; ++j) { Rectangle rect(Point(bx[i] - 20, by[j] - 10), Point(bx[i] + 20, by[j] + 10)); new ShapeRef(router, rect); }
+    new ConnRef(router, ConnEnd(Point(200, 100)), ConnEnd(Point(200, 400)));   // C: vertical, one fixed segment on x = 200
+    new ConnRef(router, ConnEnd(Point(400, 150)), ConnEnd(Point(0, 200)));     // A: Z bend between the shapes, middle segment centred onto x = 200, y in [150,200]
+    new ConnRef(router, ConnEnd(Point(400, 300)), ConnEnd(Point(0, 350)));     // B: the same further down, y in [300,350]
+    router->processTransaction();
+    if (router->existsOrthogonalSegmentOverlap(true)) { printf("vertical connector with two Z-bend connectors across it: a middle segment is still collinear with it after nudging\n"); bad++; }
+    delete router;
+  }
   // a fixed straight connector and a movable one hugging an obstacle at the same coordinate: separated in BOTH creation orders
   for (int order = 0; order < 2; ++order) for (int nd = 4; nd <= 10; nd += 6) {
     Router *router = new Router(OrthogonalRouting);
@@ -266,6 +279,44 @@ def jobs(tier):
                   flags=["--sat-solver", "cadical"], backend="sat:cadical",
                   domain="every segment state (all doubles that are numbers), both dimensions, the out-parameter set or not on entry",
                   expect=[r'h_fixedOrder\.assertion']))
+    # ---- nudgeOrthogonalRoutes, inside a region: the current segment is constrained against EVERY earlier segment it overlaps (unless both are fixed),
+    #      with the full nudging distance unless one of the three alignment/shared-path exemptions applies  (bounded: up to 2 earlier segments)
+    _, seg_body = fragment_loop(ngr, r'for \(ShiftSegmentList::iterator currSegmentIt = currentRegion\.begin\(\);', "nudgeOrthogonalRoutes [body of the loop over a region's segments]")
+    pairs = items_between(seg_body, r'channelLeftID', r'channelRightID', "nudgeOrthogonalRoutes [constraints against the earlier segments of the region]", allow_loop_break=True)
+    pc_cxx = ("#include <verif_base.h>\n#include <vector>\n#include <list>\n"
+              'extern "C" { int w_q(int what, void *cur, void *prev); void w_new_constraint(void *l, void *r, double gap, int eq); void w_pushed(int which, void *c); }\n'
+              "namespace Avoid {\n// stand-ins: every question the fragment asks about a pair of segments goes to the harness; constructing a Constraint is recorded there\n"
+              "class Variable { public: int id; };\n"
+              "class Constraint { public: Constraint(Variable *l, Variable *r, double g, bool e = false) { w_new_constraint((void *)l, (void *)r, g, e ? 1 : 0); } };\n"
+              "struct VerifConstraints { void push_back(Constraint *c) { w_pushed(which, (void *)c); } int which; };\n"
+              "class ConnRef { public: unsigned m_id; unsigned id() const { return m_id; } };\n"
+              "class UnsignedPair { public: UnsignedPair(unsigned a, unsigned b) : first(a), second(b) {} unsigned first, second; };\n"
+              "class ShiftSegment { public: void *_verif_vptr; };\n"
+              "class NudgingShiftSegment : public ShiftSegment { public: ConnRef *connRef; Variable *variable; bool fixed;\n"
+              "    bool overlapsWith(const ShiftSegment *rhs, const size_t dim) const { return w_q(1, (void *)this, (void *)rhs) != 0; }\n"
+              "    bool shouldAlignWith(const ShiftSegment *rhs, const size_t dim) const { return w_q(2, (void *)this, (void *)rhs) != 0; }\n"
+              "    bool canAlignWith(const NudgingShiftSegment *rhs, const size_t dim) const { return w_q(3, (void *)this, (void *)rhs) != 0; } };\n"
+              "struct VerifSharedSet { size_t count(const UnsignedPair& p) const { return w_q(4, (void *)(unsigned long)p.first, (void *)(unsigned long)p.second) != 0 ? 1 : 0; } };\n"
+              "typedef std::list<ShiftSegment *> ShiftSegmentPtrList;\n"
+              "static void verif_pair_constraints(NudgingShiftSegment *currSegment, std::list<ShiftSegment *>& prevVars, std::vector<Variable *>& vs, size_t index, VerifConstraints& cs, VerifConstraints& gapcs,\n"
+              "        double sepDist, size_t dimension, bool nudgeSharedPathsWithCommonEnd, VerifSharedSet& m_shared_path_connectors_with_common_endpoints)\n{\n" +
+              # front-end workaround: `::iterator` / `::reverse_iterator` through the typedef of a template instance is not resolved by goto-cc
+              re.sub(r'\bShiftSegmentPtrList::(reverse_iterator|iterator)\b', r'std::list<ShiftSegment *>::\1', pairs.text) + "\n}\n}\n"
+              "static Avoid::NudgingShiftSegment verif_cur, verif_prev[2]; static Avoid::ConnRef verif_conn[3]; static Avoid::Variable verif_var[3]; static Avoid::Variable *verif_vsd[3];\n"
+              'extern "C" void w_pairs(unsigned nprev, int curFixed, int f0, int f1, double sepDist, int nudgeShared) {\n'
+              "  std::list<Avoid::ShiftSegment *> prevVars; prevVars._n = 0; std::vector<Avoid::Variable *> vs; Avoid::VerifConstraints cs, gapcs; Avoid::VerifSharedSet shared; cs.which = 0; gapcs.which = 1;\n"
+              "  int F[2] = {f0, f1};\n"
+              "  for (unsigned k = 0; k < 3; ++k) { verif_conn[k].m_id = 10 + k; verif_var[k].id = k; verif_vsd[k] = &verif_var[k]; }\n"
+              "  for (unsigned k = 0; k < 2; ++k) { verif_prev[k].connRef = &verif_conn[k]; verif_prev[k].variable = &verif_var[k]; verif_prev[k].fixed = F[k] != 0; if (k < nprev) prevVars.push_back(&verif_prev[k]); }\n"
+              "  verif_cur.connRef = &verif_conn[2]; verif_cur.variable = &verif_var[2]; verif_cur.fixed = curFixed != 0; vs._d = verif_vsd; vs._n = 3; vs._cap = 3;\n"
+              "  Avoid::verif_pair_constraints(&verif_cur, prevVars, vs, 2, cs, gapcs, sepDist, 0, nudgeShared != 0, shared); }\n"
+              'extern "C" int verif_prev_index(void *seg) { return seg == (void *)&verif_prev[0] ? 0 : seg == (void *)&verif_prev[1] ? 1 : -1; }\n'
+              'extern "C" int verif_var_index(void *v) { for (int k = 0; k < 3; ++k) if (v == (void *)&verif_var[k]) return k; return -1; }\n')
+    js.append(Job("region_constrains_every_overlapping_pair", "B", spec, "h_pairs", cxx=pc_cxx, defines=["JOB_pairs"], slices=[ngr, seg_body, pairs], stub_variant="bounded", unwind=5,
+                  flags=["--sat-solver", "cadical"], backend="sat:cadical", replay=replay_c10, timeout=600,
+                  bound="0 to 2 earlier segments in the region (loops unwound 5 times with unwinding assertions); every answer of overlapsWith / shouldAlignWith / canAlignWith / the shared-path set per pair",
+                  domain="every such region prefix; the fragment is anchored on its neighbours (the two channel-edge blocks), so a rewritten loop is still extracted",
+                  expect=[r'h_pairs\.assertion']))
     return js
 
 
@@ -284,7 +335,11 @@ ASSUMPTIONS = [
     "the adjoining segments and by an S/Z bend's span all hold together for the limits handed to NudgingShiftSegment",
     "fixedOrder_only_sets_its_flag: NudgingShiftSegment::fixedOrder with nudgeDistance() and lowPoint() behind the harness: its out-parameter comes out as (value on entry) OR "
     "(effectively fixed), which is what lets CmpLineOrder share one flag between its two calls; CmpLineOrder itself and linesort are not under contract",
-    "NOT decided (residue): which segments are built fixed, ordering of shared paths (PtOrderMap), channel computation (min/maxSpaceLimit), the constraints generated inside a region, the resulting separation, checkpoints staying on routes",
+    "region_constrains_every_overlapping_pair is a BOUNDED stand-in (0 to 2 earlier segments; overlapsWith / shouldAlignWith / canAlignWith / the shared-path set answer arbitrarily per pair; "
+    "Constraint is a recording stand-in): inside a region the current segment gets exactly one constraint against every earlier segment it overlaps unless both are fixed, with the full "
+    "nudging distance unless an alignment/shared-path exemption applies",
+    "NOT decided (residue): which segments are built fixed, ordering of shared paths (PtOrderMap), channel computation (min/maxSpaceLimit), the channel-edge constraints and "
+    "the later gap reduction inside a region, the resulting separation, checkpoints staying on routes",
 ]
 EXPLANATION = ("Write-back kernel of nudging under contract: a fixed segment writes nothing (empty frame); the written position is the solver position clamped into "
-               "[minSpaceLimit,maxSpaceLimit]; the loop body writes exactly one coordinate of one indexed route point and keeps the route's size; bounded whole-function check; bounded check that a nudging region is closed under overlap.")
+               "[minSpaceLimit,maxSpaceLimit]; the loop body writes exactly one coordinate of one indexed route point and keeps the route's size; bounded whole-function check; bounded check that a nudging region is closed under overlap; bounded check that a region's segment is constrained against every earlier segment it overlaps.")
